@@ -994,6 +994,12 @@ class InterpExpr:
         if attr == 'logger':
             return LoggerV()
         ft = self.ts.field_type(cls, attr)
+        if ft is not None and self._has_fun(ft) and not self.ct.is_instance_assigned(cls, attr):
+            # annotated class-level table of classes / functions never assigned through an instance: a class constant
+            cd = self.ct.class_default(cls, attr)
+            if cd is not None:
+                dc = next(c for c in self.ct.mro(cls) if attr in self.ct.classes[c].class_ann)
+                return self.ev(cd[0], Frame(None, cd[1], {}, None, dc))
         if ft is not None and (self.ct.is_field(cls, attr) or (cls, attr) in getattr(self.ts.shapes, 'FIELD_TYPES', {})
                                or ('*', attr) in getattr(self.ts.shapes, 'FIELD_TYPES', {})):
             return self.read_field(obj, attr)
@@ -1013,6 +1019,12 @@ class InterpExpr:
             if ext is not None:
                 return ext(self, obj)
         raise Unsupported(f'{cls}.{attr}: neither property, field, method nor class constant (line {line})')
+
+    def _has_fun(self, ty):
+        if isinstance(ty, TFun):
+            return True
+        return any(self._has_fun(x) for x in (getattr(ty, 't', None), getattr(ty, 'k', None), getattr(ty, 'v', None))
+                   if isinstance(x, Ty))
 
     def class_const(self, cc):
         dc, node = cc
@@ -1567,6 +1579,9 @@ class InterpExpr:
             return list(v)
         if isinstance(v, str):
             return list(v)
+        if isinstance(v, ClassV) and v.name in self.ct.classes and self.ct.classes[v.name].is_enum:
+            # iterating an Enum class yields its members in definition order
+            return [EnumMember(v.name, n, code, val) for n, code, val in self.ts.enum_info(v.name)['members']]
         return None
 
 
